@@ -838,3 +838,24 @@ fn run(ctx: &Ctx) {
     ctx.run("roundtrip", rt_case(), ctx.cases(8_000, 200_000), |c: &RtCase| check_rt(ctx, c));
     ctx.run("unix-stream", unix_case(), ctx.cases(8_000, 200_000), |c: &UnixCase| check_unix(ctx, c));
 }
+
+// ---------------------------------------------------------------------------
+// Entry point for the coverage-guided target (/verif/harness/fuzz, target `agent_reply`)
+// ---------------------------------------------------------------------------
+
+thread_local! {
+    static FUZZ_CTX: Ctx = Ctx::new("C27", Tier::Thorough, 0, 0, 1);
+}
+
+/// One libFuzzer iteration: arbitrary bytes as the agent's reply to request_identities / sign / the other
+/// client calls. Errors are fine, panics are not (libFuzzer's panic hook aborts, which saves the input).
+pub fn fuzz_agent_reply(data: &[u8]) {
+    let c = RawCase { tokens: data.iter().map(|b| Token::Byte(*b)).collect() };
+    FUZZ_CTX.with(|ctx| {
+        if let Err(f) = check_raw(ctx, "fuzz", &c) {
+            if !ctx.is_known(&f.sig) {
+                panic!("VIOLATION property=C27 signature={} {}", f.sig, f.msg);
+            }
+        }
+    });
+}
